@@ -1073,6 +1073,12 @@ func getApproverAttestationAndKeyIDsForIndex(ctx context.Context, repo gitstore.
 					return nil, nil, err
 				}
 
+				// The attestation is found using its path, what counts is
+				// the change the app's signed statement names
+				if stmt.Predicate == nil || stmt.Predicate.ReferenceAuthorization == nil || stmt.Predicate.GetRef() != targetRef || stmt.Predicate.GetFromID() != fromID.String() || stmt.Predicate.GetTargetID() != toID.String() {
+					return nil, nil, fmt.Errorf("%w: GitHub app approval attestation is for a different change", ErrVerificationFailed)
+				}
+
 				for _, approver := range stmt.Predicate.GetApprovers() {
 					approverIdentities.Add(approver)
 				}
